@@ -348,7 +348,8 @@ impl<'a> TypeGenerator<'a> {
         let mut ty = self.resolve_type(id)?;
 
         // Only the prelude `Cow` (path `["Cow"]`) is transparent, not a user type that happens to be named `Cow`.
-        if ty.path.namespace().is_empty() && ty.path.ident() == Some("Cow".to_string()) {
+        // A `Cow` may borrow another `Cow` (`Cow<'a, Cow<'b, str>>`), so unwrap until something else is reached.
+        while ty.path.namespace().is_empty() && ty.path.ident() == Some("Cow".to_string()) {
             let inner_ty_id = ty.type_params[0]
                 .ty
                 .ok_or_else(|| {
